@@ -252,8 +252,20 @@ def correspond(ctx, scale):
         scale_ = rng.choice([1.0, 0.5])
         if ci < 8:      # small cases whose per-token entropy is certified against the real-valued formula
             cd, ncb, sph, soft, masked, inv_t = 1, 1, False, False, False, [1.0, 2.0][ci % 2]
-        q = LFQ(codebook_size=2 ** cd, num_codebooks=ncb, dim=cd * ncb, entropy_loss_weight=ew, diversity_gamma=gamma, commitment_loss_weight=cw, spherical=sph,
-                experimental_softplus_entropy_loss=soft, codebook_scale=scale_)
+        live = ci % 2 == 1
+        if live:
+            # loss-weight SCHEDULES: the public weight attributes are changed on the live module (a commitment warm-up from 0, an entropy weight decay);
+            # the reported losses follow the weights the module has NOW, whatever it was constructed with
+            q = LFQ(codebook_size=2 ** cd, num_codebooks=ncb, dim=cd * ncb, entropy_loss_weight=1.0, diversity_gamma=1.0, commitment_loss_weight=[0.0, 0.5][(ci // 2) % 2], spherical=sph,
+                    experimental_softplus_entropy_loss=soft, codebook_scale=scale_)
+            q.train()
+            with torch.no_grad():
+                q(torch.randn(2, 3, cd * ncb))          # one call under the constructor weights first
+            q.entropy_loss_weight, q.diversity_gamma, q.commitment_loss_weight = ew, gamma, cw
+            dist['live_weight_schedules'] = dist.get('live_weight_schedules', 0) + 1
+        else:
+            q = LFQ(codebook_size=2 ** cd, num_codebooks=ncb, dim=cd * ncb, entropy_loss_weight=ew, diversity_gamma=gamma, commitment_loss_weight=cw, spherical=sph,
+                    experimental_softplus_entropy_loss=soft, codebook_scale=scale_)
         q.train()
         b, nn_ = 2, 3
         x = torch.randn(b, nn_, cd * ncb)
